@@ -12,6 +12,7 @@ from mc.common2d import Reg, SignedSlice, resolve_insertions, subtotal, transfor
 from mc.compare import SKIP, arr_bytes, first_diff, num_eq
 from mc.engine import Res, Space, digest, multisets, viol
 from mc.model import Schema, tabulate
+from mc.oracle import div
 from mc.partition import partition_oracles
 from props.c11 import cell_stats, _moments, _se
 
@@ -78,8 +79,47 @@ SCHEMAS = {k: v[0] for k, v in BASES.items()}
 PROFILES = {k: v[0].profiles(v[1]) for k, v in BASES.items()}
 
 
+# multitable cube set whose second cube is a single-column filter (re-inflated by the library): the
+# population given to the set reaches every cube of it
+FS = "cubeset_filter_column"
+FS_POPS = (1, 1000)
+
+
+def _fs_space(tier):
+    import props.c02 as c02
+    n = 3 if tier == "quick" else 5
+
+    def level(k):
+        def gen():
+            for ms in multisets(len(c02.FS_PROFILES), k):
+                for p in range(len(FS_POPS)):
+                    yield (ms, p)
+        return gen
+    return Space(FS, [(k, level(k)) for k in range(1, n + 1)], len(c02.FS_PROFILES),
+                 {"profiles": len(c02.FS_PROFILES), "populations": list(FS_POPS), "max_respondents": n})
+
+
+def _check_fs(state):
+    import props.c02 as c02
+    from cr.cube.cube import CubeSet
+    people, inside, resps = c02._fs_responses((state[0], 0))
+    pop = FS_POPS[state[1]]
+    cs = CubeSet(resps, [{}, {}], pop, 0)
+    V, asserted = [], 0
+    parts = cs.partition_sets[0]
+    for ci, (part, members) in enumerate(zip(parts, ([v for v, _ in people], inside))):
+        base = len(members)
+        exp = [div(sum(1 for v in members if v == k), base) * pop for k in range(3)]
+        asserted += 1
+        d = first_diff(part.population_counts, exp)
+        if d is not None:
+            V.append(viol("cubeset:cube%d:population_counts" % ci, "cube %d population_counts at %s: library %r, "
+                          "share x population %r (population %d)" % (ci, d[0], d[1], d[2], pop), output="population_counts"))
+    return Res(V, len(inside) > 0, digest(FS, state[1], arr_bytes(parts[1].population_counts)), asserted)
+
+
 def spaces(tier):
-    out = []
+    out = [_fs_space(tier)]
     for name in sorted(BASES):
         sch, w, cfgs, q, t = BASES[name]
         n = q if tier == "quick" else t
@@ -106,6 +146,11 @@ def _unpack(space, state):
 
 
 def detail(space, state):
+    if space == FS:
+        import props.c02 as c02
+        people, inside, resps = c02._fs_responses((state[0], 0))
+        return {"respondents": [{"text_value": v, "in_filter": bool(f)} for v, f in people],
+                "population": FS_POPS[state[1]], "responses": resps}
     sch, data, cfg, flt, pop = _unpack(space, state)
     return {"schema": space, "dims": sch.dims, "transforms": transforms_for(cfg), "filter_shape": flt[0],
             "result_extra": flt[1], "population": pop,
@@ -113,6 +158,8 @@ def detail(space, state):
 
 
 def check(space, state):
+    if space == FS:
+        return _check_fs(state)
     sch, data, cfg, flt, pop = _unpack(space, state)
     resp = tabulate(sch, data)
     resp["result"].update(flt[1])
